@@ -46,6 +46,14 @@ REJECT = [
     ('parameter type changed', 'int f(int a, double b) { return a; }', INT2),
     ('two definitions of the function', 'int f(int a, int b) { return a; }\nint f(int a, int b) { return b; }', INT2),
     ('bit operation on an index', 'int f(int a, int b) { return a & b; }', INT2),
+    ('goto to a label that is not at the end of a block', 'int f(int a, int b) { for (int i = 0; i < a; ++i) { if (i == b) goto out; b += 1; } out: b += 2; return b; }', INT2),
+    ('continue outside a for loop', 'int f(int a, int b) { if (a < b) continue; return a; }', INT2),
+    ('general while loop without fuel configured', 'int f(int a, int b) { while (a != b) a = a + 1; return a; }', INT2),
+    ('loop condition without a simple bound on the index', 'int f(int a, int b) { int s = 0; for (int i = 0; i * i < a && s < b; ++i) s += i; return s; }', INT2),
+    ('floating literal in an integer function', 'int f(int a, int b) { double c = 0.5; return a; }', INT2),
+    ('<= on floating values without a configured order', 'double f(double y, int n) { if (y <= 1.0) return y; return y * n; }', dict(params=[('y', 'F'), ('n', 'int')], ret_kind='F', float=['double'], raw_params=True, c_param_names=['y', 'n'])),
+    ('state-passing call nested in an expression', 'template<typename It> int g(It d, int i) { while (d[i] != i) i = d[i]; return i; }\ntemplate<typename It> int f(It d, int i) { return g(d, i) + 1; }',
+     dict(params=[('d', 'arr'), ('i', 'int')], raw_params=True, c_param_names=['d', 'i'], pick='generic', tparams=['It'], arr_state='d', while_fuel=True)),
 ]
 ACCEPT = [
     ('if/else chains, ternary, compound assignment, cast', 'int f(int a, int b) { int c = (int)(a / b); if (c < 0) c = -c; else if (c == 0) { c += b; } c *= 2; return c > 3 ? c : b; }', INT2,
@@ -59,6 +67,15 @@ ACCEPT = [
     ('parameters renamed (bound by position), helper of the same file as a local function, file-scope constant',
      'const int LIMIT = 7;\nnamespace detail { inline int twice(int v) { return 2 * v; } }\nint f(int x, int y) { if (x > LIMIT) return detail::twice(y); return x; }', INT2,
      ['let twice := fun (v : Int) =>', '(a > 7)', 'twice b']),
+    ('compound loop condition (alive flag), goto to the end of the loop body, continue',
+     'int f(int a, int b) { int s = 0; for (int i = 0; i < a && i + b <= a; ++i) { for (int j = 0; j != b; ++j) { if (j == i) goto next; if (j > 3) continue; s += j; } s += 100; next: ; } return s; }', INT2,
+     ['go_i = true ∧', 'brk_next', 'brk_continue_j']),
+    ('floating arithmetic, polymorphic in the scalar type', 'double f(double y, int n) { double z = 1.5 - y; if (y < 0.25) { z *= z; } return z * y / 6.0 + n; }',
+     dict(params=[('y', 'F'), ('n', 'int')], ret_kind='F', float=['double'], raw_params=True, c_param_names=['y', 'n']),
+     ['{α : Type}', '(((3 : Nat) : α) / ((2 : Nat) : α))', '((n : Int) : α)', '((6 : Nat) : α)']),
+    ('array state, while loop with fuel', 'template<typename It> int f(It d, int i) { while (d[i] != i) { const int p = d[i]; d[i] = d[p]; i = p; } return i; }',
+     dict(params=[('d', 'arr'), ('i', 'int')], raw_params=True, c_param_names=['d', 'i'], pick='generic', tparams=['It'], arr_state='d', while_fuel=True),
+     ['whileFuel fuel', 'setIfInBounds', '(fuel : Nat)', 'Array Int × Int']),
     ('assert is ignored and recorded', 'int f(int a, int b) { assert(a < b); return std::max(a, b) + std::min<int>(a, b); }', INT2,
      ['ignored `assert`s', 'max a b']),
 ]
